@@ -1,6 +1,11 @@
 //! Engine binary `e_codec`: one module per property. See /verif/DESIGN.md.
 use vmon::report::parse_args;
 
+/// seeded PRNG under the path the shared (san-included) kernel files expect
+mod prng {
+    pub use vmon::prng::*;
+}
+mod k28;
 mod c26;
 mod c27;
 mod c28;
